@@ -324,3 +324,191 @@ Proof.
     change (8 * N.of_nat 8) with 64. change (8 * 8) with 64. rewrite !N.mod_mod by (apply N.pow_nonzero; discriminate). reflexivity.
   - contradiction.
 Qed.
+
+(* ------------------------------------------------------------------------------ the loop invariant *)
+Lemma state_lt x a y b : x < 2 ^ a -> y < 2 ^ b -> x + 2 ^ a * y < 2 ^ (a + b).
+Proof. intros H1 H2. rewrite pow2_add. nia. Qed.
+
+Lemma flush_gap_spec en offset bits acc start F :
+  ilen en acc = offset -> offset <= start -> start * 8 < M64 ->
+  8 * offset <= F -> F < 8 * offset + 8 -> bits < 2 ^ (F - 8 * offset) ->
+  exists bits1 acc2, flush_gap offset bits start acc = (bits1, acc2) /\ ilen en acc2 = start /\
+    inum en acc2 + 2 ^ (8 * start) * bits1 = inum en acc + 2 ^ (8 * offset) * bits /\
+    ((offset = start /\ bits1 = bits) \/ (offset < start /\ bits1 = 0)).
+Proof.
+  intros Hl Hle Hs HF1 HF2 Hb. assert (HM : M64 = 18446744073709551616) by reflexivity. unfold flush_gap.
+  assert (Hb128 : bits < 256).
+  { eapply N.lt_le_trans; [exact Hb|]. change 256 with (2 ^ 8). apply N.pow_le_mono_r; [discriminate|lia]. }
+  destruct (N.ltb_spec offset start) as [Hlt|Hge]; cbn [andb].
+  - destruct (N.eqb_spec bits 0) as [->|Hnz]; cbn [negb].
+    + rewrite (proj2 (N.ltb_lt offset start)) by exact Hlt.
+      eexists _, _. split; [reflexivity|]. rewrite ilen_app, inum_app, ilen_zero, inum_zero, sub64_small by lia.
+      split; [lia|]. split; [lia|]. right. split; [exact Hlt|reflexivity].
+    + rewrite w64_small by lia.
+      assert (Hfl : ilen en (acc ++ [IInt 1 [bits mod 4294967296]]) = offset + 1 /\
+                    inum en (acc ++ [IInt 1 [bits mod 4294967296]]) = inum en acc + 2 ^ (8 * offset) * bits).
+      { rewrite ilen_app, inum_app, ilen_byte, inum_byte, Hl. split; [reflexivity|].
+        rewrite (N.mod_small bits 4294967296) by lia. rewrite N.mod_small by exact Hb128. reflexivity. }
+      destruct Hfl as [Hfl1 Hfl2].
+      destruct (N.ltb_spec (offset + 1) start) as [Hlt2|Hge2].
+      * eexists _, _. split; [reflexivity|]. rewrite ilen_app, inum_app, ilen_zero, inum_zero, sub64_small by lia.
+        rewrite Hfl1, Hfl2. split; [lia|]. split; [lia|]. right. split; [exact Hlt|reflexivity].
+      * eexists _, _. split; [reflexivity|]. rewrite Hfl1, Hfl2. split; [lia|]. split; [lia|]. right. split; [exact Hlt|reflexivity].
+  - assert (offset = start) by lia. subst start.
+    rewrite (proj2 (N.ltb_ge offset offset)) by lia.
+    eexists _, _. split; [reflexivity|]. split; [exact Hl|]. split; [reflexivity|]. left. split; reflexivity.
+Qed.
+
+Lemma bf_arith bits1 u sh width n q :
+  bits1 < 2 ^ sh -> sh + width <= 64 -> 8 * n + q = sh + width ->
+  let W := N.lor bits1 (w64 (u * 2 ^ sh)) in
+  W mod 2 ^ (8 * n) + 2 ^ (8 * n) * ((W / 2 ^ (8 * n)) mod 2 ^ q) = bits1 + (u mod 2 ^ width) * 2 ^ sh.
+Proof.
+  intros Hb Hsw Hnq W. rewrite <- mod_split, Hnq.
+  assert (Hx : w64 (u * 2 ^ sh) = (u mod 2 ^ (64 - sh)) * 2 ^ sh).
+  { unfold w64. rewrite M64_pow. replace 64 with ((64 - sh) + sh) at 1 by lia. rewrite pow2_add.
+    apply N.mul_mod_distr_r; apply N.pow_nonzero; discriminate. }
+  assert (HW : W = bits1 + (u mod 2 ^ (64 - sh)) * 2 ^ sh) by (unfold W; rewrite Hx; apply lor_add_disjoint; exact Hb).
+  rewrite mod_split. rewrite HW.
+  rewrite N.mod_add by (apply N.pow_nonzero; discriminate). rewrite (N.mod_small bits1) by exact Hb.
+  rewrite N.div_add by (apply N.pow_nonzero; discriminate). rewrite (N.div_small bits1) by exact Hb. rewrite N.add_0_l.
+  rewrite mod_mod_pow by lia. lia.
+Qed.
+
+Definition sorted_disjoint (l : list init) : Prop := StronglySorted before l.
+
+Lemma patches_none cur rest : Forall (before cur) rest -> patches cur rest = POk cur rest.
+Proof.
+  intros H. destruct rest as [|n r]; [reflexivity|]. inversion H as [|? ? Hn _]; subst. cbn [patches].
+  unfold before in Hn. rewrite (proj2 (N.ltb_ge (bstart n) (bend cur))) by exact Hn. reflexivity.
+Qed.
+
+Lemma finish_ok en size offset bits acc F :
+  size * 8 < M64 -> ilen en acc = offset -> 8 * offset <= F -> F < 8 * offset + 8 -> bits < 2 ^ (F - 8 * offset) -> F <= 8 * size ->
+  exists its, finish size offset bits acc = DOk its /\ ilen en its = size /\
+              inum en its = inum en acc + 2 ^ (8 * offset) * bits.
+Proof.
+  intros Hs Hl HF1 HF2 Hb HFs. assert (HM : M64 = 18446744073709551616) by reflexivity. unfold finish.
+  assert (Hb256 : bits < 256).
+  { eapply N.lt_le_trans; [exact Hb|]. change 256 with (2 ^ 8). apply N.pow_le_mono_r; [discriminate|lia]. }
+  destruct (N.eqb_spec bits 0) as [->|Hnz]; cbn [negb].
+  - assert (offset <= size) by lia. rewrite (proj2 (N.ltb_ge size offset)) by lia.
+    destruct (N.ltb_spec offset size) as [Hlt|Hge].
+    + eexists. split; [reflexivity|]. rewrite ilen_app, inum_app, ilen_zero, inum_zero. split; lia.
+    + eexists. split; [reflexivity|]. split; lia.
+  - assert (8 * offset < F).
+    { destruct (N.eq_dec F (8 * offset)) as [E|E]; [|lia]. rewrite E, N.sub_diag in Hb. change (2 ^ 0) with 1 in Hb. lia. }
+    assert (offset < size) by lia. rewrite w64_small by lia.
+    rewrite (proj2 (N.ltb_ge size (offset + 1))) by lia.
+    assert (Hfl : ilen en (acc ++ [IInt 1 [bits mod 4294967296]]) = offset + 1 /\
+                  inum en (acc ++ [IInt 1 [bits mod 4294967296]]) = inum en acc + 2 ^ (8 * offset) * bits).
+    { rewrite ilen_app, inum_app, ilen_byte, inum_byte, Hl. split; [reflexivity|].
+      rewrite (N.mod_small bits 4294967296) by lia. rewrite N.mod_small by exact Hb256. reflexivity. }
+    destruct Hfl as [Hfl1 Hfl2].
+    destruct (N.ltb_spec (offset + 1) size) as [Hlt|Hge].
+    + eexists. split; [reflexivity|]. rewrite ilen_app, inum_app, ilen_zero, inum_zero, Hfl1, Hfl2. split; lia.
+    + eexists. split; [reflexivity|]. rewrite Hfl1, Hfl2. split; lia.
+Qed.
+
+Lemma emit_loop_ok en size : size * 8 < M64 -> forall l fuel offset bits acc F,
+  (length l < fuel)%nat -> Forall wf_entry l -> sorted_disjoint l -> Forall (fun i => i_end i <= size) l ->
+  Forall (fun i => F <= bstart i) l ->
+  ilen en acc = offset -> 8 * offset <= F -> F < 8 * offset + 8 -> bits < 2 ^ (F - 8 * offset) -> F <= 8 * size ->
+  exists its, emit_loop fuel size l offset bits acc = DOk its /\ ilen en its = size /\
+     inum en its = fold_left (write en) (map leaf_of l) (inum en acc + 2 ^ (8 * offset) * bits).
+Proof.
+  intros Hs. assert (HM : M64 = 18446744073709551616) by reflexivity.
+  induction l as [|cur rest IH]; intros fuel offset bits acc F Hfuel Hwf Hsd Hin HF Hl HF1 HF2 Hb HFs.
+  - destruct fuel as [|f]; [simpl in Hfuel; lia|]. cbn [emit_loop map fold_left]. eapply finish_ok; eauto.
+  - destruct fuel as [|f]; [simpl in Hfuel; lia|]. cbn [emit_loop].
+    apply Forall_cons_iff in Hwf. destruct Hwf as [Hwc Hwr]. apply StronglySorted_inv in Hsd. destruct Hsd as [Hsr Hbr].
+    apply Forall_cons_iff in Hin. destruct Hin as [Hic Hir]. apply Forall_cons_iff in HF. destruct HF as [HFc HFr].
+    rewrite (patches_none cur rest Hbr).
+    destruct (wf_ranges cur Hwc) as (Hbs & Hbe & Hne & Hba).
+    pose proof Hwc as (Hse & Hm & Hexp).
+    set (b := bf_before (i_bits cur)) in *. set (a := bf_after (i_bits cur)) in *.
+    set (S := i_end cur - i_start cur) in *.
+    pose proof (N.div_mod b 8 ltac:(discriminate)) as Hbdm.
+    pose proof (N.div_mod (a + 7) 8 ltac:(discriminate)) as Hadm.
+    pose proof (N.mod_lt b 8 ltac:(discriminate)) as Hsh.
+    pose proof (N.mod_lt (a + 7) 8 ltac:(discriminate)) as Hr.
+    set (sh := b mod 8) in *. set (fb := b / 8) in *. set (ca := (a + 7) / 8) in *. set (r := (a + 7) mod 8) in *.
+    assert (Hstart : w64 (i_start cur + fb) = i_start cur + fb) by (apply w64_small; lia).
+    assert (Hend : sub64 (i_end cur) ca = i_end cur - ca) by (apply sub64_small; lia).
+    rewrite Hstart, Hend.
+    set (start := i_start cur + fb) in *. set (end_ := i_end cur - ca) in *.
+    assert (Hoff : offset <= start) by lia.
+    destruct (flush_gap_spec en offset bits acc start F Hl Hoff ltac:(lia) HF1 HF2 Hb) as (bits1 & acc2 & Efg & Hl2 & Hn2 & Hcase).
+    rewrite Efg.
+    (* the value so far and the new entry *)
+    set (V := inum en acc + 2 ^ (8 * offset) * bits) in *.
+    assert (HV : V < 2 ^ (bstart cur)).
+    { eapply N.lt_le_trans; [|apply N.pow_le_mono_r; [discriminate|exact HFc]].
+      replace F with (8 * offset + (F - 8 * offset)) by lia. apply state_lt; [rewrite <- Hl; apply inum_lt|exact Hb]. }
+    cbn [map fold_left]. unfold write at 2. cbn [leaf_of l_pos l_width l_val].
+    rewrite (setbits_above V _ _ _ HV).
+    assert (Hrest : Forall (fun i => bend cur <= bstart i) rest) by exact Hbr.
+    destruct (isbf cur) eqn:Ebf; unfold isbf in Ebf; fold b a in Ebf; rewrite Ebf.
+    + (* a bit-field *)
+      destruct (i_expr cur) as [isflt sz u|w data|sym off|] eqn:Eexp; cbv zeta in Hexp;
+        try (destruct Hexp as (_ & _ & Hf) || destruct Hexp as (_ & Hf) || contradiction;
+             unfold isbf in Hf; fold b a in Hf; congruence).
+      destruct Hexp as (Hsz & _ & [Hf|[-> Hsz8]]); [unfold isbf in Hf; fold b a in Hf; congruence|].
+      subst sz. fold S in Hsz8.
+      assert (Hbits1 : bits1 < 2 ^ sh).
+      { destruct Hcase as [[-> ->]|[_ ->]]; [|apply pow2_pos].
+        eapply N.lt_le_trans; [exact Hb|]. apply N.pow_le_mono_r; [discriminate|lia]. }
+      assert (Hn : (if start <? end_ then N.to_nat (end_ - start) else 0%nat) = N.to_nat (end_ - start)).
+      { destruct (N.ltb_spec start end_); [reflexivity|]. replace (end_ - start) with 0 by lia. reflexivity. }
+      rewrite Hn. set (W := N.lor bits1 (w64 (u * 2 ^ sh))).
+      destruct (emit_bytes_spec en (N.to_nat (end_ - start)) W acc2) as (bytes & Eeb & Hlb & Hnb).
+      rewrite Eeb. rewrite N2Nat.id in *. set (n := end_ - start) in *.
+      fold r. rewrite mask_ones by exact Hr. rewrite N.land_ones. set (q := 7 - r).
+      set (width := bend cur - bstart cur).
+      assert (Hnq : 8 * n + q = sh + width) by (unfold n, q, width, start, end_; lia).
+      assert (Hsw : sh + width <= 64) by (unfold width; lia).
+      pose proof (bf_arith bits1 u sh width n q Hbits1 Hsw Hnq) as Harith. cbv zeta in Harith. fold W in Harith.
+      destruct (IH f end_ ((W / 2 ^ (8 * n)) mod 2 ^ q) (acc2 ++ bytes) (bend cur)) as (its & Eits & Hil & Hin2).
+      * simpl in Hfuel. lia.
+      * exact Hwr.
+      * exact Hsr.
+      * exact Hir.
+      * exact Hrest.
+      * rewrite ilen_app, Hl2, Hlb. unfold n. lia.
+      * unfold end_, q. lia.
+      * unfold end_, q. lia.
+      * replace (bend cur - 8 * end_) with q by (unfold end_, q; lia). apply N.mod_lt. apply N.pow_nonzero. discriminate.
+      * lia.
+      * exists its. split; [exact Eits|]. split; [exact Hil|]. rewrite Hin2. f_equal.
+        rewrite inum_app, Hl2, Hnb. cbn [payload_of payload_num]. fold width.
+        replace (8 * end_) with (8 * start + 8 * n) by (unfold n; lia). rewrite pow2_add.
+        replace (bstart cur) with (8 * start + sh) by (unfold start; lia). rewrite pow2_add.
+        fold V in Hn2. nia.
+    + (* a whole object *)
+      apply orb_false_elim in Ebf. destruct Ebf as [Eb0 Ea0]. apply negb_false_iff in Eb0, Ea0. apply N.eqb_eq in Eb0, Ea0.
+      assert (Hfb : fb = 0 /\ ca = 0 /\ sh = 0) by (unfold fb, ca, sh; rewrite Eb0, Ea0; repeat split; reflexivity).
+      destruct Hfb as (Hfb & Hca & Hsh0).
+      assert (Hbits1 : bits1 = 0).
+      { destruct Hcase as [[-> ->]|[_ ->]]; [|reflexivity].
+        assert (F = 8 * offset) by lia. subst F. rewrite N.sub_diag in Hb. change (2 ^ 0) with 1 in Hb. lia. }
+      subst bits1.
+      destruct (dataitem_spec en cur Hwc) as (dits & Edi & Hdl & Hdn).
+      { unfold isbf. fold b a. rewrite Eb0, Ea0. reflexivity. }
+      rewrite Edi.
+      destruct (IH f end_ 0 (acc2 ++ dits) (bend cur)) as (its & Eits & Hil & Hin2).
+      * simpl in Hfuel. lia.
+      * exact Hwr.
+      * exact Hsr.
+      * exact Hir.
+      * exact Hrest.
+      * rewrite ilen_app, Hl2, Hdl. unfold start, end_. lia.
+      * unfold end_. lia.
+      * unfold end_. lia.
+      * apply pow2_pos.
+      * lia.
+      * exists its. split; [exact Eits|]. split; [exact Hil|]. rewrite Hin2. f_equal.
+        rewrite inum_app, Hl2, Hdn. rewrite N.mul_0_r, N.add_0_r.
+        replace (bend cur - bstart cur) with (8 * (i_end cur - i_start cur)) by lia.
+        replace (bstart cur) with (8 * start) by (unfold start; lia).
+        fold V in Hn2. rewrite N.mul_0_r, N.add_0_r in Hn2. rewrite Hn2. lia.
+Qed.
